@@ -154,7 +154,7 @@ func (p C08) Run(c *sim.Ctx, t *sim.Tape) sim.RunResult {
 }
 
 func (p C08) runFS(c *sim.Ctx, t *sim.Tape) (sim.RunResult, string) {
-	cfg := genConc(t, []string{"memfs", "orefafs"}, 8, 4, false)
+	cfg := genConc(t, []string{"memfs", "orefafs"}, 8, 3+deeper(c, t), false)
 	cfg.Users = cfg.FS == "memfs" && t.Chance(500)
 	cfg.SharedH = t.Chance(400)
 
